@@ -388,6 +388,13 @@ func (x *Exec) step(st *State, fr *Frame, ins ssa.Instruction) {
 		}
 		r := st.allocate("clo")
 		st.closures[r.S] = fv
+		if strings.HasSuffix(fn.Name(), "$bound") && len(v.Bindings) == 1 {
+			// method value: remember receiver and method for contracts
+			rf := declFun("ghost closureRecv", []string{SInt}, SInt)
+			nf := declFun("ghost closureName", []string{SInt}, SString)
+			st.assume(eq(app(SInt, rf, r), x.term(st, v.Bindings[0])))
+			st.assume(eq(app(SString, nf, r), smtString(fn.Name())))
+		}
 		st.vals[v] = Val{T: r, typ: v.Type(), fn: fv}
 	case *ssa.ChangeType:
 		xv := x.val(st, v.X)
